@@ -507,13 +507,30 @@ func (l *Life) Persist(h *hseg) int {
 		fatal2("segment %d is not unpersisted", h.sid)
 	}
 	opBegin("Persist")
-	err := us.Persist(path)
+	var err error
+	func() {
+		defer func() {
+			if x := recover(); x != nil {
+				err = fmt.Errorf("panic: %v", x)
+			}
+		}()
+		err = us.Persist(path)
+	}()
 	opEnd()
 	ev.Err = err != nil
 	data, rerr := os.ReadFile(path)
 	ev.Exists = rerr == nil
 	var buf bytes.Buffer
-	n, werr := h.seg.(*zap.SegmentBase).WriteTo(&buf)
+	var n int64
+	var werr error
+	func() {
+		defer func() {
+			if x := recover(); x != nil {
+				werr = fmt.Errorf("panic: %v", x)
+			}
+		}()
+		n, werr = h.seg.(*zap.SegmentBase).WriteTo(&buf)
+	}()
 	ev.WN = int(n)
 	if werr != nil {
 		ev.WN = -1
@@ -542,12 +559,21 @@ func (l *Life) Persist(h *hseg) int {
 // Open opens file k and logs the observation.
 func (l *Life) Open(k int) *hseg {
 	opBegin("Open")
-	seg, err := l.plugin.Open(l.path(k))
+	var seg segment.Segment
+	var err error
+	func() {
+		defer func() {
+			if x := recover(); x != nil {
+				err = fmt.Errorf("panic: %v", x)
+			}
+		}()
+		seg, err = l.plugin.Open(l.path(k))
+	}()
 	opEnd()
 	ev := EvOpen{Ev: "open", Sid: -1, File: k, Foot: Footer{CRC: Ints{}}}
 	if err != nil {
 		ev.Err = err.Error()
-		ev.Obs = &Obs{}
+		ev.Obs = emptyObs()
 		l.tr.Emit(ev)
 		return nil
 	}
@@ -653,7 +679,15 @@ func (l *Life) Merge(ins []*hseg, drops []Drop, mode int) (int, bool) {
 }
 
 func (l *Life) Close(h *hseg) {
-	err := h.seg.Close()
+	var err error
+	func() {
+		defer func() {
+			if x := recover(); x != nil {
+				err = fmt.Errorf("panic: %v", x)
+			}
+		}()
+		err = h.seg.Close()
+	}()
 	h.closed = true
 	ev := EvClose{Ev: "close", Sid: h.sid}
 	if err != nil {
